@@ -24,6 +24,53 @@ from ..units import DIMENSIONLESS, FlowUnits, UnitError, UnitEval, div, fmt, mul
 from .c17 import resolve_vector, check_output_table, column_role, sql_alias_unit, strip_tolist, vector_dumps, output_table
 
 
+def _section_keys(e):
+    """Constant keys of subscript chains X['a']['b'] in an expression: [('a', 'b'), ...]"""
+    out = []
+    for n in ast.walk(e):
+        if isinstance(n, ast.Subscript) and isinstance(n.slice, ast.Constant) and isinstance(n.slice.value, str):
+            chain = []
+            m = n
+            while isinstance(m, ast.Subscript) and isinstance(m.slice, ast.Constant) and isinstance(m.slice.value, str):
+                chain.append(m.slice.value)
+                m = m.value
+            out.append(tuple(reversed(chain)))
+    # keep maximal chains only
+    return [c for c in out if not any(o != c and o[:len(c)] == c for o in out)]
+
+
+def _conversion_keyed_on_own_section(ctx, chk, g):
+    """The m2/s -> m2/d conversion applies to the PEATCLSM *transmissivity*: the test that selects it reads the
+    `type` of the section the transmissivity function is built from.  The two sections of a parameter file carry
+    independent types."""
+    flow = Flow.of(g)
+    fac = [c for c in ast.walk(g.node) if isinstance(c, ast.Call) and ctx.cg.resolve_callee(g, c.func) == ["transmissivity.create_transmissivity_function"]]
+    secs = set()
+    for c in fac:
+        if c.args:
+            for ch in _section_keys(flow.expand(c.args[0], keep=set(g.params))):
+                secs.add(ch[0])
+    tests = []
+    for n in ast.walk(g.node):
+        if isinstance(n, (ast.If, ast.IfExp)) and enclosing_func(n) is g.node:
+            te = flow.expand(n.test, keep=set(g.params))
+            if any(isinstance(k, ast.Constant) and k.value == "peatclsm" for k in ast.walk(te)):
+                tests.append((n, te))
+    if len(secs) != 1 or not tests:
+        chk.indeterminate("C18.O3", where_of(g, g.node), "the test selecting the PEATCLSM unit conversion, or the section the transmissivity is built from, is not read (sections %s, %d tests)" % (sorted(secs), len(tests)))
+        return
+    sec = next(iter(secs))
+    for n, te in tests:
+        chains = [ch for ch in _section_keys(te) if ch[-1] == "type"]
+        if not chains:
+            chk.indeterminate("C18.O3", where_of(g, n), "test `%s` compares with 'peatclsm' but the section it reads is not identified" % ast.unparse(n.test)[:60])
+            continue
+        own = all(len(ch) >= 2 and ch[-2] == sec for ch in chains)
+        chk.ob("C18.O3", own, where_of(g, n), "m2/s -> m2/d conversion selected by %s; transmissivity built from section '%s'" % (", ".join("[%s]" % "][".join(repr(k) for k in ch) for ch in chains), sec),
+               "the type of the section the transmissivity function is built from", key="simulate_recession|conversion-own-section",
+               why="each section of the parameter file has its own type: keyed on the other section, a PEATCLSM transmissivity in m2/s enters the balance as m2/d (or a spline one is multiplied by 86400)")
+
+
 def run(ctx, chk, tier="quick"):
     chk.explanation = (
         "Algebraic normal form of the integrand of compute_recession_curve against the water-balance "
@@ -228,6 +275,7 @@ def _command(ctx, chk, compute):
                            why="PEATCLSM transmissivity is in m2/s; the balance needs m2/d")
                 except UnitError as exc:
                     chk.info("C18.O3", where_of(fi, rets[0]), "unit of the PEATCLSM wrapper not determinable: %s" % exc, "not decided")
+    _conversion_keyed_on_own_section(ctx, chk, g)
     # et argument is the query result
     eta = bind.get(p[5])
     etb = binding_of(ctx, g, et_site)
@@ -315,6 +363,9 @@ def _command(ctx, chk, compute):
     for wcall, marker, dumpc in vector_dumps(ctx, d):
         ok = False
         desc = "?"
+        if dumpc is None:
+            chk.indeterminate("C18.O5", where_of(d, wcall), "how the vector is written after marker %r is not read (no yaml.dump, no loop of one-item writes)" % marker.strip())
+            continue
         if dumpc is not None and dumpc.args and qdir is not None:
             core, rev = resolve_vector(Flow.of(d), dumpc.args[0])
             desc = ast.unparse(dumpc.args[0])
